@@ -29,7 +29,7 @@ for p in props:
         "replay_cmd_template": "./check %s --replay {path}" % pid,
         "engine": "hx (hx-mir + hx-ast + rules)",
         "level_claimed": {"category": m.LEVEL, "text": man["text"], "design_ref": "DESIGN.md section 4." + pid},
-        "level_note": man["note"],
+        "level_note": man["note"] + " The comparison of extracted tables / normal forms with the reviewed references is ADVISORY: a difference is printed as a REVIEW line and listed under unreviewed_changes in the evidence, it never produces a VIOLATION (an idiom the canonical forms do not cover looks the same as a change); violations come from the fact rules and from the comparisons with the transcribed standard only.",
         "technique": man["technique"],
     })
 out = {
@@ -43,7 +43,7 @@ out = {
         {"name": "rules", "path": "rules", "serves_properties": [c["property_id"] for c in checks], "kind_free_text": "python: decision-tree flattening (lib/flat.py, lib/machine.py), dominance / def-use rules over MIR (lib/mir.py), table rules"},
     ],
     "checks": checks,
-    "notes": "Static analysis only; see DESIGN.md. Each check decides the clauses listed in its level_note, never the behavioural statement as a whole.",
+    "notes": "Static analysis only; see DESIGN.md. Each check decides the clauses listed in its level_note, never the behavioural statement as a whole. Reference comparisons ('equals the reviewed normal form') are advisory, see DESIGN.md 3.4.",
     "not_applicable": na,
 }
 json.dump(out, open(os.path.join(V, "MANIFEST.json"), "w"), indent=1)
